@@ -1540,7 +1540,8 @@ class Chemical:
 
         # Energy
         self._Hfus = heat_of_fusion(CAS) or 0. if Hfus is None else Hfus
-        self._Sfus = None if Hfus is None or Tm is None else Hfus / Tm 
+        # Entropy of fusion from the data in use (given or retrieved)
+        self._Sfus = self._Hfus / self._Tm if self._Tm else None
         
         # Other
         self._dipole = dipole or dipole_moment(CAS)
